@@ -63,6 +63,7 @@ class CFBinding:
         self.n_jobs = n_jobs
         self.backend = backend
         self.container = container
+        self._feats = {}
         binarizers.configure({self.lm[k]: float(v * self.unit) for k, v in self.thr.items()}, float(self.unit))
 
     def describe(self):
@@ -157,8 +158,11 @@ class CFBinding:
                 return "ok", mab.remove_arm(self.lm[label["arm"]])
             if op == "warm_start":
                 q = terms.frac(label["q"])
-                feats = {self.lm[a]: list(v) for a, v in feat.items() if self.lm[a] in mab.arms}
-                return "ok", mab.warm_start(feats, float(q))
+                fmap = feat[label.get("fs", 1) - 1] if isinstance(feat, list) else feat
+                # the caller keeps ONE feature dictionary and updates it in place between calls
+                self._feats.clear()
+                self._feats.update({self.lm[a]: list(v) for a, v in fmap.items() if self.lm[a] in mab.arms})
+                return "ok", mab.warm_start(self._feats, float(q))
             if op == "predict":
                 return "ok", mab.predict(self.contexts(label["m"]))
             if op == "predict_expectations":
@@ -388,6 +392,8 @@ class Replay:
         return json.dumps(state, sort_keys=True)
 
     def trace(self, skey):
+        if skey == "__path__":
+            return list(getattr(self, "_trail", None) or [])
         edges = []
         while skey in self.parent and self.parent[skey] is not None:
             skey, edge = self.parent[skey]
@@ -510,6 +516,58 @@ class Replay:
                     self.report("confluence.snapshot",
                                 "two call sequences reach the same documented state but different objects: %s; other path %s"
                                 % (changed, json.dumps(self.path(tkey))), skey, label)
+        return self
+
+    def run_paths(self, edges):
+        """Simulation behaviours executed as PATHS: one real object per behaviour, never copied between its calls, with
+        the caller-owned containers of the binding reused from call to call.  State is compared after every step.  This
+        is where state that survives only on the same object across calls (caches keyed on identity, references to caller
+        objects) shows, which the edge-wise replay (a fresh deep copy per edge) cannot see."""
+        b = self.b
+        skip = b.skip()
+        if not edges:
+            return self
+        init_key = self.key(edges[0]["s"])
+        obj, prev, trail = None, None, []
+        for edge in edges:
+            if len(self.sig_counts) >= self.max_findings:
+                break
+            skey = self.key(edge["s"])
+            if skey == init_key and (obj is None or prev != skey):
+                obj, trail = b.new(edge["s"]["arms"], edge["s"].get("bin", "none")), []
+            elif obj is None or prev != skey:
+                obj = None
+                continue
+            label = edge["l"]
+            op = label["op"]
+            self.current = edge
+            self.parent["__path__"] = None
+            self.stats["path_edges"] = self.stats.get("path_edges", 0) + 1
+            trail.append(edge)
+            self._trail = list(trail)
+            if op == "reject":
+                before = copy.deepcopy(obj)
+                outcome, value = b.call(obj, label, self.feat)
+                if outcome not in ("ok", "skip"):
+                    changed = self.observably_different(obj, before, True, skip)
+                    if changed:
+                        self.report("reject.changed", "rejected call %s (%s) changed the bandit: %s" % (label["kind"], outcome, changed),
+                                    "__path__", label)
+                prev = skey
+                continue
+            twin = copy.deepcopy(obj) if op in ("predict", "predict_expectations") else None
+            before = snapshot(obj, rng=False, skip=skip) if twin is not None else None
+            outcome, value = b.call(obj, label, self.feat)
+            if outcome != "ok":
+                self.report("call.exception", "%s raised %s: %s" % (op, outcome, value), "__path__", label)
+                obj = None
+                continue
+            for clause, detail in self.safe_compare(obj, edge["t"]):
+                self.report(clause, detail + " (same object through the whole call sequence)", "__path__", label)
+            if twin is not None:
+                self.check_query(obj, twin, label, value, before, "__path__", skip)
+            prev = self.key(edge["t"])
+        self._trail = None
         return self
 
     def ctx(self, m, mab):
